@@ -1785,6 +1785,22 @@ fn run(v: &Value) -> Result<String, String> {
             struct Gate { released: Mutex<HashMap<u64, bool>>, cv: Condvar }
             let rt = tokio::runtime::Builder::new_multi_thread().worker_threads(4).max_blocking_threads(64).enable_all().build().unwrap();
             let mut cases = 0usize;
+            // a blocking route dispatches off the reader whether middleware was registered before or after it
+            {
+                use repe::{Execution, Message, Next};
+                let mw = |req: &Message, next: Next<'_>| -> Result<Message, RepeError> { next.run(req) };
+                let before = Router::new().with_middleware(mw).with_json_blocking("/b", |v| Ok(v)).with_json("/i", |v| Ok(v));
+                let after = Router::new().with_json_blocking("/b", |v| Ok(v)).with_json("/i", |v| Ok(v)).with_middleware(mw);
+                let both = Router::new().with_middleware(mw).with_json_blocking("/b", |v| Ok(v)).with_json("/i", |v| Ok(v)).with_middleware(mw);
+                let plain = Router::new().with_json_blocking("/b", |v| Ok(v)).with_json("/i", |v| Ok(v));
+                for (name, r) in [("middleware registered before the route", &before), ("middleware registered after the route", &after), ("middleware before and after", &both), ("no middleware", &plain)] {
+                    let b = r.get("/b").ok_or("route missing")?.execution();
+                    let i = r.get("/i").ok_or("route missing")?.execution();
+                    if b != Execution::OffReader { return Err(format!("{name}: a with_json_blocking route reports execution {b:?}; it must stay OffReader")); }
+                    if i != Execution::Inline { return Err(format!("{name}: a with_json route reports execution {i:?}; it must stay Inline")); }
+                    cases += 1;
+                }
+            }
             // parked handler threads may outlive a failing scenario: the runtime is shut down in the background at the end
             let outcome: Result<(), String> = (|| {
             fn perms(n: usize) -> Vec<Vec<usize>> {
@@ -1880,6 +1896,19 @@ fn run(v: &Value) -> Result<String, String> {
                                 let pong = client.call_json("/ping", &json!({})).await.map_err(|e| format!("cap {cap}: the connection died after handler {k} (mode {mode}) exited: {e}"))?;
                                 if pong != json!("pong") { return Err(format!("foreign answer to /ping: {pong}")); }
                             }
+                            // the cap is unchanged by whatever happened so far (returns, failures, panics): fill it again, one more is refused
+                            let mut again = Vec::new();
+                            for k in 0..cap as u64 {
+                                let c = client.clone();
+                                again.push((700 + k, tokio::spawn(async move { c.call_json("/hold", &json!({"key": 700 + k, "mode": 0})).await })));
+                            }
+                            let t2 = std::time::Instant::now();
+                            while running.load(Ordering::SeqCst) < cap { if t2.elapsed() > Duration::from_secs(5) { return Err(format!("cap {cap}: after the first round only {} of {cap} handlers could start again", running.load(Ordering::SeqCst))); } tokio::time::sleep(Duration::from_millis(5)).await; }
+                            match tokio::time::timeout(Duration::from_secs(3), client.call_json("/hold", &json!({"key": 800, "mode": 0}))).await {
+                                Ok(Err(RepeError::ServerError { code, .. })) if code == ErrorCode::ResourceExhausted => {}
+                                other => return Err(format!("cap {cap}: after earlier handlers returned, failed and panicked, request number cap+1 was not refused ({other:?}): the cap is no longer {cap}")),
+                            }
+                            for (k, h) in again { gate.released.lock().unwrap().insert(k, true); gate.cv.notify_all(); let _ = tokio::time::timeout(Duration::from_secs(5), h).await; }
                             if max_running.load(Ordering::SeqCst) > cap { return Err(format!("cap {cap}: {} off-reader handlers ran at the same time", max_running.load(Ordering::SeqCst))); }
                             drop(client);
                             server_task.abort();
